@@ -39,3 +39,9 @@ Print Assumptions c10_unimodular_basis_change.
 (** non-vacuity: a shear with its inverse *)
 Example c10_unimodular_ex : mulmm ((1, 0, 0), (-2, 1, 0), (-7, 3, 1)) ((1, 0, 0), (2, 1, 0), (1, -3, 1)) = ident.
 Proof. reflexivity. Qed.
+
+(** Hand-modelled code this property's model and correspondences were written against is unchanged (the permutation search and the representation classes; the distance computation of FCCutoff):
+    whole-function match against the recorded source, regenerated on every run. *)
+From SymfcG Require Import ShapesSpg ShapesGeom.
+Theorem c10_recorded_sources_in_force : ShapesSpg_as_recorded = true /\ ShapesGeom_as_recorded = true.
+Proof. repeat split; reflexivity. Qed.
